@@ -42,6 +42,10 @@ CLAIMED = {
          "Exploration: Polynomial<K>::least_squares for K = 2..6 on asymmetric, offset, clustered and repeated abscissae with and without weights (exact data must be recovered; for arbitrary data the weighted residual must be orthogonal to every monomial column, hence optimal); Series1::best_fit_line against the degree-1 fit; Circle2::fitting_circle from nearby guesses on arcs of 60..360 degrees (exact recovery, stationarity for noisy data); Circle2::from_3_points on triangles with min angle >= 5 degrees and exactly collinear triples; seeded Circle2::ransac on contaminated data.",
          "Bounds scale with the condition number of the weighted Gram matrix computed by the oracle's SVD (cond > 1e7 skipped and counted); circle-fit gradient bound 1e-4|J||r| plus the rounding floor; Gaussian weighting judged on exact samples only.",
          "3 / C09"),
+ "C11": ("runtime monitor: defining-constraint oracle with a configuration classifier (exactly constructed tangent cases) and an independently computed bounding box",
+         "Exploration: circle-circle intersections in every relative position (separate, externally/internally tangent, crossing, nested, concentric, equal radii, identical), intersection intervals, circle-segment and curve-circle intersections, tangent points from external points at d/r from 1+1e-6 to 1e3, outer tangent segments, arcs by angles and through three points (start/end/sweep sign/length/fraction), and the cached bounding boxes of circles and arcs against dense samples and an independent box.",
+         "Tangent configurations are built on dyadic, axis-aligned coordinates so that they are exact; non-constructed cases stay >= 1e-6 r away from tangency; on-object tolerance 1e-9*scale. The private line-circle primitive is observed through the public segment intersection. Known finding: reversed left/right order of outer tangents for equal radii (cannot be repaired without editing an existing unit test).",
+         "3 / C11"),
 }
 
 def main():
